@@ -7,6 +7,7 @@ import (
 	"go/ast"
 	"go/constant"
 	"go/types"
+	"regexp"
 	"sort"
 	"strings"
 )
@@ -89,6 +90,39 @@ func termsEqual(a, b *Term) bool {
 }
 
 func runC02(w *World, r *Report) {
+	r.Rule("observers", "methods that formatting calls implicitly (String, Error, …) leave the value unchanged", 1)
+	observerRule(w, r, "observers", "openflow13", "common")
+	// an element that came in through the decoder is sent again by bundles, proxies and flow replays: the
+	// length a decoder stores must be the one the encoder puts back, and the value type a match-field payload
+	// is decoded into must occupy the registered width, or the re-encoded element declares one size and
+	// occupies another
+	r.Rule("relen", "a length field a decoder stores is written back unchanged by the encoder (offset, width, byte order, no adjustment)", 12)
+	r.Rule("oxmdecode", "a match-field payload is decoded into a value type of the registered width", 60)
+	{
+		lenField := regexp.MustCompile(`^(int|byte):\$\.([A-Za-z0-9_.]*)(Length|Len)$`)
+		r2 := NewReport(r.Prop, r.Tier)
+		for _, k := range w.KindsL {
+			if k.Marshal == nil || k.Unmarshal == nil || !k.OwnMarshal || !k.OwnUnmarshal || !(strings.HasPrefix(k.Name, "openflow13.") || strings.HasPrefix(k.Name, "common.")) {
+				continue
+			}
+			efi, dfi := w.FuncOf(k.Marshal), w.FuncOf(k.Unmarshal)
+			if efi == nil || dfi == nil {
+				continue
+			}
+			mirrorKind(w, r2, k, efi, dfi)
+		}
+		for _, o := range r2.Obs {
+			if o.Rule == "mirror" && lenField.MatchString(o.Instance) {
+				o.Rule = "relen"
+				r.Add(o)
+			}
+		}
+		r3 := NewReport(r.Prop, r.Tier)
+		w.oxmDispatchRule(r3, "oxmdecode", false)
+		for _, o := range r3.Obs {
+			r.Add(o)
+		}
+	}
 	r.Rule("code", "constructors leave the specified type / subtype / experimenter codes", 35)
 	r.Rule("declen", "stored length fields equal the size of what the element contains, for every constructor and builder", 13)
 	r.Rule("oxmlen", "constructors and editors of match fields leave oxm_length equal to the payload bytes", 40)
@@ -691,6 +725,16 @@ var directLen = map[string]struct {
 	}, "ofp_packet_out.actions_len: total size of the action list"},
 }
 
+// unpaddedLen: element families whose declared length excludes the padding that follows the element, so it
+// is compared with the content size and not with the (possibly padded) size function.
+var unpaddedLen = map[string]struct {
+	Want func() *Term
+	What string
+}{
+	"common.HelloElemVersionBitmap": {func() *Term { return Const(4).Add(LenOf("$.Bitmaps").Scale(4)) },
+		"ofp_hello_elem_versionbitmap.length: header plus bitmaps, excluding padding (OpenFlow 1.3.5 §7.5.1)"},
+}
+
 // wirelenRule: the declared length an encoder puts on the wire equals the number of bytes the
 // element occupies, at the moment of encoding (not merely after the last builder call): the value is
 // the abstract value of the length field when the header child is encoded (or the value written
@@ -789,6 +833,9 @@ func wirelenRule(w *World, r *Report, kinds []*Kind) {
 			want, what = dl.Want(), dl.What
 		} else if ok {
 			what = dl.What
+		}
+		if uw, ok := unpaddedLen[k.Name]; ok {
+			want, what = uw.Want(), uw.What
 		}
 		dn, wn := norm(D), norm(want)
 		// an invariant established when a child was added says nothing once the child can grow afterwards
